@@ -519,12 +519,20 @@ class An(ResultQuantifier[T]):
         self._node_.wrap_subtree = True
 
     def evaluate(self) -> Iterable[TypingUnion[T, Dict[TypingUnion[T, SymbolicExpression[T]], T]]]:
+        results = self._evaluate__()
         try:
-            with symbolic_mode(mode=None):
-                results = self._evaluate__()
-                assert not in_symbolic_mode()
-                yield from map(self._process_result_, results)
+            while True:
+                # symbolic mode is switched off only while the evaluation is advanced, never across the yield,
+                # otherwise the override would stay active in the caller's code while this generator is suspended.
+                with symbolic_mode(mode=None):
+                    try:
+                        result = next(results)
+                    except StopIteration:
+                        break
+                    result = self._process_result_(result)
+                yield result
         finally:
+            results.close()
             # also when the iterator is closed or dropped before it is exhausted, or user code raised.
             self._reset_cache_()
 
